@@ -25,18 +25,23 @@ import (
 )
 
 type exChain struct {
-	mu    sync.Mutex
-	sets  []*nodecommon.GuardianSet // universe: sets[i].Index == i
-	names [][]string
-	top   int
-	calls int
-	abi   ethabi.ABI
-	srv   *httptest.Server
-	url   string
+	mu       sync.Mutex
+	cond     *sync.Cond
+	holdNext int // the next holdNext getGuardianSet requests are not answered until Release
+	held     int // requests waiting right now
+	released bool
+	sets     []*nodecommon.GuardianSet // universe: sets[i].Index == i
+	names    [][]string
+	top      int
+	calls    int
+	abi      ethabi.ABI
+	srv      *httptest.Server
+	url      string
 }
 
 func exNewChain(keys *vhKeys, universe []interface{}, top int, up bool) *exChain {
 	c := &exChain{top: top}
+	c.cond = sync.NewCond(&c.mu)
 	for i, ks := range universe {
 		gs := &nodecommon.GuardianSet{Index: uint32(i)}
 		var nm []string
@@ -62,9 +67,31 @@ func exNewChain(keys *vhKeys, universe []interface{}, top int, up bool) *exChain
 }
 
 func (c *exChain) Close() {
+	c.Release()
 	if c.srv != nil {
 		c.srv.Close()
 	}
+}
+
+// HoldNext makes the node keep the answers to the next n getGuardianSet calls back until Release (a slow RPC round
+// trip); Held tells how many calls are waiting.
+func (c *exChain) HoldNext(n int) {
+	c.mu.Lock()
+	c.holdNext, c.released = n, false
+	c.mu.Unlock()
+}
+
+func (c *exChain) Held() int {
+	c.mu.Lock()
+	defer c.mu.Unlock()
+	return c.held
+}
+
+func (c *exChain) Release() {
+	c.mu.Lock()
+	c.holdNext, c.released = 0, true
+	c.cond.Broadcast()
+	c.mu.Unlock()
 }
 
 func (c *exChain) Top() int {
@@ -136,6 +163,14 @@ func (c *exChain) ServeHTTP(w http.ResponseWriter, r *http.Request) {
 		}
 		c.mu.Lock()
 		c.calls++
+		if m.Name == "getGuardianSet" && c.holdNext > 0 {
+			c.holdNext--
+			c.held++
+			for !c.released {
+				c.cond.Wait()
+			}
+			c.held--
+		}
 		top := c.top
 		c.mu.Unlock()
 		switch m.Name {
